@@ -20,6 +20,16 @@ func (b Bundle) Fragment(mtu int) (bs []Bundle, err error) {
 		return
 	}
 
+	// A Bundle which already fits into the MTU is returned as it is.
+	wholeBundle := Bundle{PrimaryBlock: b.PrimaryBlock, CanonicalBlocks: append([]CanonicalBlock(nil), b.CanonicalBlocks...)}
+	wholeBuff := new(bytes.Buffer)
+	if err = wholeBundle.MarshalCbor(wholeBuff); err != nil {
+		return
+	} else if wholeBuff.Len() <= mtu {
+		bs = []Bundle{b}
+		return
+	}
+
 	var (
 		cborOverhead     = 2
 		extFirstOverhead int
@@ -90,7 +100,10 @@ func (b Bundle) Fragment(mtu int) (bs []Bundle, err error) {
 		i += fragPayloadBlockLen
 	}
 
-	if len(bs) == 1 {
+	if len(bs) == 0 {
+		err = fmt.Errorf("bundle does not fit into the MTU and has no payload to be fragmented")
+		return
+	} else if len(bs) == 1 {
 		bs = []Bundle{b}
 	}
 
